@@ -64,6 +64,7 @@ fn main() {
             }
             None => 2,
         },
+        Some("amplify") if args.len() >= 2 => hist::amplify_main(&args[1]),
         Some("selftest") => orch::selftest_determinism(&|p| engines::engine_of(p), args.get(2).and_then(|s| s.parse().ok()).unwrap_or(1200)),
         Some("replay") if args.len() >= 2 => orch::replay_main(&|p| engines::engine_of(p), &args[1]),
         Some("replay-inner") if args.len() >= 2 => {
